@@ -986,7 +986,12 @@ Proof. vm_compute. split; reflexivity. Qed.
    every domain the Go code can hold.  (2) Nice on a NEGATIVE domain mn < mx < 0: each new end is the old one or
    minus a power of the base that is a positive finite float64 (mirror image of C17_log_nice_ends_are_powers).
    (3) The minor-tick list (TicksAtLevel below level 0) is strictly ascending on the folded positive domain; with
-   the membership statement log_minor_ticks_spec the list is determined. *)
+   the membership statement log_minor_ticks_spec the list is determined.  (4) EVERY Log case the comparator
+   parses (p_sccase, ends decoded from float64 bit patterns, log_pre = the kind-2 precondition of accept_parse)
+   has folded ends that are positive finite float64 values, so by (1) the hypothesis
+   `log_count e false 0 <= MAXINT` in the Log readings of C17_check_meaning_scales holds for every accepted
+   kind-2 line (proof: a finite non-zero value decoded from ANY bit pattern has magnitude in [2^-1074, 2^1024),
+   Proofs/CheckC17LogRange.v decode_fin_range). *)
 From Coq Require Import Sorted.
 From MM Require Import Proofs.TicksLogGroupM.
 Theorem C17_log_float_domain_facts :
@@ -997,7 +1002,11 @@ Theorem C17_log_float_domain_facts :
   (forall b mn mx o a c, (mx < 0)%Q -> (mn < mx)%Q -> log_nice b mn mx o = (a, c) ->
      ((a == mn)%Q \/ exists n, a = (- qpow b n)%Q /\ f64_pos_ok (qpow b n) = true) /\
      ((c == mx)%Q \/ exists n, c = (- qpow b n)%Q /\ f64_pos_ok (qpow b n) = true)) /\
-  (forall b e emin emax ro l, 2 <= b -> l < 0 -> StronglySorted Qlt (log_ticks_pos b e emin emax ro l)).
+  (forall b e emin emax ro l, 2 <= b -> l < 0 -> StronglySorted Qlt (log_ticks_pos b e emin emax ro l)) /\
+  (forall r c r', p_sccase r = Some (c, r') -> log_pre (sc_base c) (sc_mn c) (sc_mx c) = true ->
+     let e := log_e (sc_base c) (sc_mn c) (sc_mx c) in
+     (f64_pos_ok (lf_emin (sc_mn c) (sc_mx c)) = true /\ f64_pos_ok (lf_emax (sc_mn c) (sc_mx c)) = true) /\
+     log_count e false 0 <= MAXINT /\ log_count e true 0 <= MAXINT).
 Proof. exact log_float_domain_facts. Qed.
 Print Assumptions C17_log_float_domain_facts.
 Example C17_log_float_domain_example :
